@@ -46,10 +46,83 @@ func (c14) Assumptions() []string {
 func (c14) DiedIsViolation() bool      { return false }
 func (c14) MinNontrivial(t string) int { return 20 }
 
+// tieSites counts rows of the action part and columns of the goto part in which two or more
+// different values share the highest frequency (the places where "most frequent value" needs a
+// tie-break), and how many of those ties are between two reductions.
+func tieSites(text string) (ties, redTies int) {
+	b := yx.Build(text, false)
+	if !b.OK() {
+		return 0, 0
+	}
+	gt := b.Root.GTable
+	nt := len(b.Root.G.VtSet)
+	count := func(vals []int) {
+		freq := map[int]int{}
+		for _, v := range vals {
+			freq[v]++
+		}
+		best := 0
+		for _, c := range freq {
+			if c > best {
+				best = c
+			}
+		}
+		var top []int
+		for v, c := range freq {
+			if c == best {
+				top = append(top, v)
+			}
+		}
+		if len(top) >= 2 {
+			ties++
+			neg := 0
+			for _, v := range top {
+				if v < 0 {
+					neg++
+				}
+			}
+			if neg >= 2 {
+				redTies++
+			}
+		}
+	}
+	for _, row := range gt {
+		count(row[:nt+1])
+	}
+	for c := nt + 1; c < len(gt[0]); c++ {
+		col := make([]int, len(gt))
+		for s := range gt {
+			col[s] = gt[s][c]
+		}
+		count(col)
+	}
+	return ties, redTies
+}
+
 func c14Grammar(seed int64, gi int) *spec.Grammar {
 	r := caseRng(seed, "C14-grammar", gi)
 	if gi%4 == 3 {
 		return gen.OpTable(r)
+	}
+	if gi%4 == 1 {
+		// grammars with few terminals and several complete items per state: pick, among 40 candidates,
+		// the one with most tie sites (reduce/reduce ties count double)
+		var best *spec.Grammar
+		bestScore := -1
+		for k := 0; k < 40; k++ {
+			var g *spec.Grammar
+			if k%2 == 0 {
+				g = gen.RandUsable(r, gen.RandCfg{MaxT: 4, MaxNT: 5, MaxAlt: 3, MaxRhs: 3})
+			} else {
+				g = gen.Contexts(r)
+			}
+			g.NoAction = true
+			t, rt := tieSites(render.Render(g, plainParts, render.Options{}))
+			if sc := t + 3*rt; sc > bestScore {
+				best, bestScore = g, sc
+			}
+		}
+		return best
 	}
 	for {
 		g := gen.Rich(r, gen.RichCfg{IntTags: true, Names: gi%2 == 0})
